@@ -453,7 +453,7 @@ class ExcelCompiler:
         if (old_value != value or
                 type(old_value) is not type(value)):  # pragma: no branch
             # need to be able to 'set' an empty cell, set to not None
-            cell_or_range.value = value
+            cell_or_range.value = 0 if value is None else value
 
             # reset the node + its dependencies
             if not self.cycles:
